@@ -5,6 +5,8 @@ from . import C02
 
 from .common import ok_return_blocks as _okret
 
+from engine.anl.casts import const_value as const_value_
+
 EXPLANATION = (
     "Static decision of the push/adopt plumbing: (R19.1) the process-wide default is replaceable — PaddingFactory::update_default stores "
     "the parsed scheme through a replaceable cell (not a write-once OnceLock/OnceCell::set, which fails for ever once default() or start-up "
@@ -235,6 +237,39 @@ def r4_r5_client_adopts(ctx):
            "a scheme that does not parse %s" % ("returns an error (which closes the session)" if err_rets else "triggers %s" % eff[0].norm))
 
 
+def r9_settings_text_codec_siblings(ctx):
+    """sibling cross-check: what StringMap::to_bytes writes, StringMap::from_bytes reads back — one `key=value` per line,
+    joined by `\\n`, split at the first `=` (values may contain `=`: base64, md5 never do, but the scheme lines `1=100-400` are
+    keys and values of this very format)"""
+    fb = ctx.body("R19.9", "util::string_map::StringMap::from_bytes")
+    tb = ctx.body("R19.9", "util::string_map::StringMap::to_bytes")
+    if fb is None or tb is None:
+        return
+    def calls_of(b0):
+        """(call, origins) over the function and its closures (iterator-chain forms put the work into closures)"""
+        out = []
+        for k_, b_ in ctx.P.bodies.items():
+            if k_ not in ctx.P.inlined_away and (k_ == b0.name or k_.startswith(b0.name + "::")):
+                o_ = ctx.origins(b_)
+                out += [(c, o_) for c in b_.calls()]
+        return out
+    tcs, fcs = calls_of(tb), calls_of(fb)
+    # writer: join separator and the format pieces
+    joins = [(c, o_) for c, o_ in tcs if (c.norm or "").split("::")[-1] in ("join", "concat") and len(c.args) > 1]
+    sep = fmt(joins[0][1].of_operand(joins[0][0].args[1])) if joins else None
+    fmts = [fmt(o_.of_operand(a)) for c, o_ in tcs if (c.norm or "").endswith(("fmt::format", "Arguments::new", "<'a>::new")) for a in c.args]
+    has_eq = any("=" in f for f in fmts)
+    # reader: line splitting and first-`=` splitting
+    by_lines = any((c.norm or "").split("::")[-1] in ("lines", "split") for c, o_ in fcs)
+    so = [(c, o_) for c, o_ in fcs if (c.norm or "").split("::")[-1] in ("split_once", "splitn", "find") and len(c.args) > 1]
+    first_eq = bool(so) and any(const_value_(o_.of_operand(c.args[-1])) == 61 or "=" in fmt(o_.of_operand(c.args[-1])) for c, o_ in so)
+    last_eq = any((c.norm or "").split("::")[-1] in ("rsplit_once", "rsplitn", "rfind") for c, o_ in fcs)
+    ok = sep is not None and "\\n" in sep and has_eq and by_lines and first_eq and not last_eq
+    ctx.ob("R19.9", "StringMap:writer-and-reader-agree", ok, (joins[0][0].site if joins else ""), "to_bytes writes `key=value` lines joined by \\n; from_bytes splits into lines and at the first `=`" if ok else
+           "StringMap::to_bytes and from_bytes do not describe the same format (separator %s, '=' written: %s, line split: %s, split at first '=': %s, split at last '=': %s): settings and padding schemes do not "
+           "survive the trip between the two ends" % (sep, has_eq, by_lines, first_eq, last_eq))
+
+
 def r8_announced_md5_is_the_sessions_own(ctx):
     """what a client session announces as padding-md5 is the md5 of the scheme that session shapes with (self.padding), and the
     scheme a write is shaped with is read inside the critical section that numbers the packet"""
@@ -309,6 +344,7 @@ def run(ctx):
     from . import C05
     r7_scheme_identity(ctx)
     r8_announced_md5_is_the_sessions_own(ctx)
+    r9_settings_text_codec_siblings(ctx)
     from . import C10
     C10.r8_version_independent_of_padding(ctx)   # and conversely: the push does not depend on the protocol version the client announced
     C05.r3_role(ctx)      # what gates shaping besides the packet index is a per-role constant (no sticky per-session latch)
